@@ -353,11 +353,6 @@ func (in *Interp) native(name string, input any, args []any, k func(v any) error
 	if err != nil {
 		return err
 	}
-	// value-semantics natives copy their input: charge fuel by size
-	in.fuel -= size(input) / 8
-	for _, a := range args {
-		in.fuel -= size(a) / 8
-	}
 	// resource guard: values that are exponentially large as trees (DAGs built
 	// by repeated duplication) or numbers that turn into huge allocations
 	// (array growth by setpath, string repetition) are outside the claim
@@ -367,6 +362,11 @@ func (in *Interp) native(name string, input any, args []any, k func(v any) error
 	}
 	if n > MaxValueNodes {
 		return &Unsupported{"resource: value too large"}
+	}
+	// value-semantics natives copy their input: charge fuel by size
+	in.fuel -= size(input) / 8
+	for _, a := range args {
+		in.fuel -= size(a) / 8
 	}
 	if name == "jn" || name == "yn" {
 		// Bessel functions of order n take time proportional to n
@@ -429,7 +429,7 @@ func treeSize(v any, limit int) int {
 			}
 		}
 	case string:
-		n += len(v) / 16
+		n += len(v) / 4
 	}
 	return n
 }
